@@ -299,6 +299,32 @@ def storageOf (w : World) (key : Name) : List Nat :=
     | some inst => decide (inst.cls = key)
     | none => false)
 
+/-- `serialize_instance`: the values read, `none` where Python reads `None` -/
+def serialVals (w : World) (i : Nat) : List Name → Except Exc (List Val)
+  | [] => .ok []
+  | n :: r =>
+    match readVal w i n with
+    | .error e => .error e
+    | .ok v =>
+      match serialVals w i r with
+      | .error e => .error e
+      | .ok l => .ok (v :: l)
+
+def serialize (w : World) (i : Nat) : Except Exc (List Val) :=
+  match w.insts[i]? with
+  | none => .error .attributeError
+  | some inst =>
+    match instCls w inst with
+    | none => .error .attributeError
+    | some c => serialVals w i c.names
+
+/-- building a Relate/UnrelateException formats both instances with `Class.__str__`, which reads every
+    declared attribute: a deleted attribute makes that raise AttributeError instead -/
+def excOrAttrError (w : World) (i j : Nat) (e : Exc) : Exc :=
+  match serialize w i, serialize w j with
+  | .ok _, .ok _ => e
+  | _, _ => .attributeError
+
 /-- `relate` for the one association shape: a source instance refers to at most one target -/
 def relate (w : World) (i j : Nat) : World × Option Exc :=
   match w.assoc, w.insts[i]?, w.insts[j]? with
@@ -311,7 +337,7 @@ def relate (w : World) (i j : Nat) : World × Option Exc :=
     | none => (w, some .unknownLink)
     | some (b, a) =>
       match linkedTarget w b with
-      | some a' => if a' = a then (w, none) else (w, some .relateE)
+      | some a' => if a' = a then (w, none) else (w, some (excOrAttrError w i j .relateE))
       | none => ({ w with links := w.links ++ [(b, a)] }, none)
   | _, _, _ => (w, some .unknownLink)
 
@@ -326,7 +352,7 @@ def unrelate (w : World) (i j : Nat) : World × Option Exc :=
     | none => (w, some .unknownLink)
     | some (b, a) =>
       if (b, a) ∈ w.links then ({ w with links := w.links.filter (fun p => decide (p ≠ (b, a))) }, none)
-      else (w, some .unrelateE)
+      else (w, some (excOrAttrError w i j .unrelateE))
   | _, _, _ => (w, some .unknownLink)
 
 /-- `WhereEqual.__call__` over a storage: instances in order, items in order, first raising read aborts -/
@@ -352,25 +378,6 @@ def selectMany (w : World) (kind : Name) (filt : List (Name × Val)) : Except Ex
   match findMetaclass w.classes kind with
   | none => .error .unknownClass
   | some _ => whereAll w filt (storageOf w (fold kind))
-
-/-- `serialize_instance`: the values read, `none` where Python reads `None` -/
-def serialVals (w : World) (i : Nat) : List Name → Except Exc (List Val)
-  | [] => .ok []
-  | n :: r =>
-    match readVal w i n with
-    | .error e => .error e
-    | .ok v =>
-      match serialVals w i r with
-      | .error e => .error e
-      | .ok l => .ok (v :: l)
-
-def serialize (w : World) (i : Nat) : Except Exc (List Val) :=
-  match w.insts[i]? with
-  | none => .error .attributeError
-  | some inst =>
-    match instCls w inst with
-    | none => .error .attributeError
-    | some c => serialVals w i c.names
 
 /-- defaults of the three types the C10 histories use (typed defaults in general: C19) -/
 def simpleDefault (ty : Name) (nextId : Nat) : Option (Val × Nat) :=
